@@ -700,8 +700,8 @@ class Liveness(_CHarness):
   max_steps = 20000
   THRESHOLD = 180.0
 
-  def __init__(self, ops=(), mode='preempt'):
-    self.params = dict(ops=list(ops), mode=mode)
+  def __init__(self, ops=(), mode='preempt', rejoin=False):
+    self.params = dict(ops=list(ops), mode=mode, rejoin=rejoin)
     self.mode = mode
     _m()
 
@@ -761,6 +761,12 @@ class Liveness(_CHarness):
         dead = True
       elif op == 'push':
         dead = False
+      if self.params.get('rejoin') and op == 'push' and not (
+          hb and now - hb < 2.0):
+        # C06 (workers may rejoin): a worker that announces itself alive again
+        # - a fresh announcement, not a late reply - is recorded as alive
+        out.append(('C06:rejoin:announced-alive-but-not-recorded',
+                    {'ops': self.params['ops'], 'at': i, 'obs': self.obs}))
       if dead and (hb != 0 or not is_none):
         out.append(('C20:liveness:dead-worker-has-a-heartbeat-again',
                     {'ops': self.params['ops'], 'at': i, 'obs': self.obs}))
